@@ -370,7 +370,11 @@ Definition check_eval_case (compiled : ctree expr) (s : env) (fm : list fimpl) (
              with its own error: "tried to replace a symbol that is used as iterator") *)
           [if String.eqb (err_class res) cls
               || (String.eqb (err_class res) "capture" && String.eqb cls "BartiqCompilationError") then 0%nat else 1%nat]
-      | _, IOk _ => [1%nat]
+      | res, IOk _ =>
+          (* (with FLOATS among the values a size such as 10.125 against 3.125 differs by the float 7.0, which the backend
+             does not take for a constant integer: it keeps the constraint undecided where the model, whose numbers are
+             rationals, rejects it; nothing C05 or C06 says separates the two) *)
+          if inexact && String.eqb (err_class res) "BartiqCompilationError" then [] else [1%nat]
       end in
   let spec :=
       match e1 with
